@@ -318,7 +318,7 @@ def r3_export_order(ctx, g, flows=None, rule='R3'):
         pi = [k for k, x in enumerate(order) if x == 'self.pitch_duration_subtokens']
         if di:
             n_with_deco += 1
-            if not pi or max(pi) > min(di):
+            if pi and max(pi) > min(di):
                 ok_after = False
     ctx.check(ok_after and n_with_deco > 0, rule, fi.loc, fi.qualname, 'decorations-after-pitch',
               'the signifier part follows the duration/pitch part on every path')
